@@ -29,8 +29,16 @@ FieldsOK(r) ==
      /\ (v = 1 => m.has_pad = (Opt(r, "G") /\ w.padneeded))
   /\ r.outfile_ok /\ r.new_files = 1
 
+\* the token-level model of the command line (CliArgv.tla) at the record's argv: what argparse hands to
+\* commands.create, as the model predicts it (clause M20.argv; skipped when the boundary could not be observed)
+AV == INSTANCE CliArgv WITH Variant <- "fixed", MaxGroups <- 0, groups <- 0, pos <- 0, st <- 0
+NsAgrees(r) == LET ns == AV!ParseArgv(r.tokens) IN
+               /\ ~ns.error /\ ns.lists = r.ns.lists /\ ns.scalars = r.ns.scalars
+               /\ ns.switches = SeqToSet(r.ns.switches) /\ ns.content = r.ns.content
+
 Clause(r, c) ==
-  CASE c = "C20.fields" -> r.status = "ok" /\ FieldsOK(r)
+  CASE c = "M20.argv" -> ~r.ns.captured \/ NsAgrees(r)
+    [] c = "C20.fields" -> r.status = "ok" /\ FieldsOK(r)
     [] c = "C20.same" -> r.status = "ok" /\ (~InGrp(r) \/ r.rest_sig = grp.sig)
     [] OTHER -> FALSE
 Report(r) == \A k \in DOMAIN r.clauses :
